@@ -31,30 +31,83 @@ theorem results_wf (a b : Value) (ha : WF a) : WF (add a b) ∧ WF (sub a b) :=
 theorem eq_componentwise (a b : Value) (ha : WF a) (hb : WF b) (na : Normal a) (nb : Normal b) :
     eq a b = true ↔ (a.coin = b.coin ∧ ∀ p n, qty a p n = qty b p n) := Value.eq_iff a b ha hb na nb
 
-/-- GOAL (full strength): `<=` is the component-wise order. -/
-def le_componentwise_goal : Prop :=
-  ∀ a b : Value, WF a → WF b → Normal a → Normal b →
-    (le a b = true ↔ (a.coin ≤ b.coin ∧ ∀ p n, qty a p n ≤ qty b p n))
+/-- `<=` is the component-wise order (an asset absent on either side counts as 0) — for ALL operands: no
+well-formedness, normality or sign hypothesis; repeated keys, empty policies, stored zeros and negative quantities
+on either side included.  (`Asset.__le__` / `MultiAsset.__le__` compare over the union of the keys; before the
+repair they iterated over the keys of the left operand only: KF-C05-le-negative.) -/
+theorem le_iff (a b : Value) :
+    Value.le a b = true ↔ a.coin ≤ b.coin ∧ ∀ p n, qty a p n ≤ qty b p n := Value.le_iff a b
 
-/-- proved part: `<=` is component-wise when the left operand stores positive and the right
-non-negative quantities (every value of the ledger; differences may leave this region) -/
-theorem le_componentwise_partial (a b : Value) (ha : WF a) (hb : WF b)
-    (pa : MultiAsset.Pos a.ma) (pb : MultiAsset.NonNeg b.ma) :
-    le a b = true ↔ (a.coin ≤ b.coin ∧ ∀ p n, qty a p n ≤ qty b p n) := by
-  unfold le qty
-  simp only [Bool.and_eq_true, decide_eq_true_eq]
-  rw [MultiAsset.le_iff_partial _ _ ha hb pa pb]
+/-- `<` is `<=` and not `==` — for ALL operands (`Value.__lt__` is exactly that composition; `==` on operands that
+store zeros or empty policies is not component-wise, see `eq_componentwise`) -/
+theorem lt_iff_le_ne (a b : Value) :
+    Value.lt a b = true ↔ (a.coin ≤ b.coin ∧ ∀ p n, qty a p n ≤ qty b p n) ∧ Value.eq a b = false :=
+  Value.lt_iff_le_ne a b
 
-/-- the full-strength goal is false of the model (and of the pinned code): negative quantities -/
-theorem le_componentwise_counterexample : ¬ le_componentwise_goal := by
-  intro h
-  have := (h ⟨0, [([1], [([2], -5)])]⟩ ⟨0, []⟩
-    (by decide) (by decide) (by intro p hp; simp at hp; subst hp; simp [Asset.Normal]) (by intro p hp; simp at hp)).2
-    ⟨by decide, by
-      intro p n
-      simp [qty, MultiAsset.qty, Dict.getD, Asset.qty]
-      split <;> simp [Dict.getD] <;> split <;> simp⟩
-  revert this; decide
+/-- `<` is the strict component-wise order on normal values (the hypotheses are those of `eq_componentwise`) -/
+theorem lt_iff (a b : Value) (ha : WF a) (hb : WF b) (na : Normal a) (nb : Normal b) :
+    Value.lt a b = true ↔
+      (a.coin ≤ b.coin ∧ ∀ p n, qty a p n ≤ qty b p n) ∧ ¬ (a.coin = b.coin ∧ ∀ p n, qty a p n = qty b p n) :=
+  Value.lt_iff a b ha hb na nb
+
+/-- … i.e. `≤` everywhere and `<` somewhere -/
+theorem lt_iff_strict (a b : Value) (ha : WF a) (hb : WF b) (na : Normal a) (nb : Normal b) :
+    Value.lt a b = true ↔
+      (a.coin ≤ b.coin ∧ ∀ p n, qty a p n ≤ qty b p n) ∧ (a.coin < b.coin ∨ ∃ p n, qty a p n < qty b p n) := by
+  rw [lt_iff a b ha hb na nb]
+  constructor
+  · rintro ⟨hle, hne⟩
+    refine ⟨hle, ?_⟩
+    by_cases hc : a.coin = b.coin
+    · right
+      apply Classical.byContradiction
+      intro hex
+      apply hne
+      refine ⟨hc, fun p n => ?_⟩
+      have h1 := hle.2 p n
+      have h2 : ¬ qty a p n < qty b p n := fun h => hex ⟨p, n, h⟩
+      omega
+    · left; have := hle.1; omega
+  · rintro ⟨hle, hlt⟩
+    refine ⟨hle, ?_⟩
+    rintro ⟨hc, hq⟩
+    rcases hlt with h | ⟨p, n, h⟩
+    · omega
+    · have := hq p n; omega
+
+/-- the order the selectors and the change calculation rely on: `<=` is reflexive and transitive on all operands -/
+theorem le_refl (a : Value) : le a a = true := (le_iff a a).2 ⟨Int.le_refl _, fun _ _ => Int.le_refl _⟩
+
+theorem le_trans (a b c : Value) (h1 : le a b = true) (h2 : le b c = true) : le a c = true := by
+  rw [le_iff] at h1 h2 ⊢
+  exact ⟨Int.le_trans h1.1 h2.1, fun p n => Int.le_trans (h1.2 p n) (h2.2 p n)⟩
+
+/-- the inputs on which `<=` was not component-wise before the repair (KF-C05-le-negative), now answered correctly:
+a negative / a zero quantity stored on the left under a key the right lacks (`Value(0,{p:{n:-5}}) <= Value(0)`,
+`Value(0,{p:{n:0}}) <= Value(0)`: True), a negative quantity stored on the right under a key the left lacks
+(`Value(0) <= Value(0,{p:{n:-5}})`: False), and the same one level up (an empty policy on the left) -/
+example : le ⟨0, [([1], [([2], -5)])]⟩ ⟨0, []⟩ = true := by decide
+example : le ⟨0, [([1], [([2], 0)])]⟩ ⟨0, []⟩ = true := by decide
+example : le ⟨0, []⟩ ⟨0, [([1], [([2], -5)])]⟩ = false := by decide
+example : le ⟨0, [([1], [])]⟩ ⟨0, []⟩ = true := by decide
+example : le ⟨0, [([1], [([2], 3)])]⟩ ⟨0, [([1], [([3], -1), ([2], 3)])]⟩ = false := by decide
+example : lt ⟨0, [([1], [([2], -5)])]⟩ ⟨0, []⟩ = true ∧ lt ⟨0, []⟩ ⟨0, [([1], [([2], -5)])]⟩ = false := by decide
+/-- **the repair changes no answer where pycardano uses `<=` on valid inputs**: on legal dicts of which the left stores
+only positive quantities (and no empty policy) and the right only non-negative ones — every value of the ledger, every
+request and selected amount of the selectors and of the change calculation on valid inputs — `<=` returns exactly what
+the key-directed code before the repair (`Value.leOld`, Proofs/Value.lean) returned -/
+theorem le_unchanged_on_positive (a b : Value) (ha : WF a) (hb : WF b)
+    (pa : MultiAsset.Pos a.ma) (pb : MultiAsset.NonNeg b.ma) : le a b = leOld a b :=
+  Value.le_eq_leOld a b ha hb pa pb
+
+/-- … and outside that region the code before the repair gave the answers recorded as KF-C05-le-negative -/
+example : leOld ⟨0, [([1], [([2], -5)])]⟩ ⟨0, []⟩ = false ∧ leOld ⟨0, [([1], [([2], 0)])]⟩ ⟨0, []⟩ = false ∧
+    leOld ⟨0, []⟩ ⟨0, [([1], [([2], -5)])]⟩ = true := by decide
+
+/-- on operands that store only positive quantities the answers are those of the old code -/
+example : le ⟨1, [([1], [([2], 3)])]⟩ ⟨1, [([1], [([2], 3), ([3], 1)]), ([4], [([2], 9)])]⟩ = true ∧
+    le ⟨1, [([1], [([2], 3)])]⟩ ⟨1, [([4], [([2], 9)])]⟩ = false ∧
+    le ⟨1, [([1], [([2], 4)])]⟩ ⟨1, [([1], [([2], 3)])]⟩ = false := by decide
 
 private theorem same_eq (x y : Value) (hx : WF x) (hy : WF y) (nx : Normal x) (ny : Normal y)
     (h : Same x y) : eq x y = true := (Value.eq_iff x y hx hy nx ny).2 h
@@ -105,8 +158,13 @@ end Pyc.C05
 #print axioms Pyc.C05.results_normal
 #print axioms Pyc.C05.results_wf
 #print axioms Pyc.C05.eq_componentwise
-#print axioms Pyc.C05.le_componentwise_partial
-#print axioms Pyc.C05.le_componentwise_counterexample
+#print axioms Pyc.C05.le_iff
+#print axioms Pyc.C05.lt_iff_le_ne
+#print axioms Pyc.C05.lt_iff
+#print axioms Pyc.C05.lt_iff_strict
+#print axioms Pyc.C05.le_refl
+#print axioms Pyc.C05.le_trans
+#print axioms Pyc.C05.le_unchanged_on_positive
 #print axioms Pyc.C05.add_comm
 #print axioms Pyc.C05.add_assoc
 #print axioms Pyc.C05.add_sub_cancel
